@@ -63,7 +63,11 @@ def main():
                 i = coq_out.find(m.group(0))
                 err = coq_out[i:i + 600].replace('\n', ' | ')
             broken.append(f'proof obligation {src} no longer checks{where}: {err}')
-    assumptions_txt = re.findall(r'(Closed under the global context|Axioms:\n(?:.+\n)+?)(?=\n|\Z)', coq_out)
+    closed_n, axiom_names = 0, []
+    for f in P.prop_files:
+        if vo_res.get(f + 'o'):
+            cn, names = C.summarize_assumptions(C.assumptions_of(f))
+            closed_n += cn; axiom_names += names
     hyg = C.hygiene()
     if hyg:
         broken.append('hygiene: ' + '; '.join(hyg[:5]))
@@ -139,7 +143,7 @@ def main():
         'checker_cmd': f'cd {C.COQ} && {coq_cmd}',
         'trusted_base': C.TRUSTED_BASE + P.trusted_extra,
         'theorems': theorems,
-        'print_assumptions': sorted(set(x.strip().replace('\n', ' ') for x in assumptions_txt))[:20],
+        'print_assumptions': {'closed_under_the_global_context': closed_n, 'axioms': sorted(set(axiom_names))},
         'evaluations': stats['evaluations'], 'distinct_nontrivial': stats['distinct_nontrivial'],
         'rule': P.rule, 'boundary_classes': stats['classes'], 'samples': stats['samples'][:4],
         'regenerated': {'kernels': {k: reg['kt'].get(k) for k in P.kernels}, 'probe': reg['probe'][:60]},
